@@ -89,8 +89,9 @@ BOuts(b) == tree[b].tx.outs \cup Tx2(b).outs
 NTxs(b) == (IF HasTx(tree[b].tx) THEN 1 ELSE 0) + (IF HasTx(Tx2(b)) THEN 1 ELSE 0)
 BlockFee(b) == Fee * NTxs(b)
 \* lock height of a body = the MAX of its kernels' lock heights (TransactionBody::lock_height, Block::verify_kernel_lock_heights)
-MaxLock(T) == IF T = {} THEN 0 ELSE LET t == CHOOSE x \in T : \A y \in T : LockH(y) <= LockH(x) IN LockH(t)
-BNrd(b) == {t \in BTxs(b) : IsNrd(t)}
+MaxLock2(t, t2) == IF LockH(t) >= LockH(t2) THEN LockH(t) ELSE LockH(t2)       \* (an absent transaction has lock 0)
+BMaxLock(b) == MaxLock2(tree[b].tx, Tx2(b))
+BNrd(b) == {t \in {tree[b].tx, Tx2(b)} : IsNrd(t)}
 Val(c) == IF c < 100 THEN Reward + (IF c = 0 THEN 0 ELSE BlockFee(c)) ELSE PoolVal[c]
 RECURSIVE SumVal(_)
 SumVal(S) == IF S = {} THEN 0 ELSE LET c == CHOOSE x \in S : TRUE IN Val(c) + SumVal(S \ {c})
@@ -112,14 +113,15 @@ LeafOf(u, c) == {i \in u.unspent : u.outs[i].c = c}       \* unspent leaves carr
 \* Stateless body rules (Block::validate): balance, lock height, cut-through.
 BodyOK(b) ==
   /\ tree[b].flag \notin {"badSums"}
-  /\ MaxLock(BTxs(b)) <= Height(b)                          \* every kernel's lock height, i.e. the largest
+  /\ BMaxLock(b) <= Height(b)                               \* every kernel's lock height, i.e. the largest
   /\ (BNrd(b) # {} => (NrdEnabled /\ Height(b) >= NrdFrom))  \* verify_nrd_kernels_for_header_version
   /\ BIns(b) \cap BOuts(b) = {}
-  /\ \A t \in BTxs(b) : SumVal(t.ins) = SumVal(t.outs) + Fee
+  /\ HasTx(tree[b].tx) => SumVal(tree[b].tx.ins) = SumVal(tree[b].tx.outs) + Fee
+  /\ HasTx(Tx2(b)) => SumVal(Tx2(b).ins) = SumVal(Tx2(b).outs) + Fee
 
 \* the first body rule that refuses b (observation for signatures and reach quotas, never compared with an error kind)
 BodyWhy(b) == IF tree[b].flag = "badSums" THEN "sums"
-              ELSE IF MaxLock(BTxs(b)) > Height(b) THEN (IF \E t \in BTxs(b) : LockH(t) <= Height(b) /\ LockH(t) > 0 THEN "lock_one_of_two_locked"
+              ELSE IF BMaxLock(b) > Height(b) THEN (IF \E t \in BTxs(b) : LockH(t) <= Height(b) /\ LockH(t) > 0 THEN "lock_one_of_two_locked"
                                                          ELSE IF NTxs(b) = 2 THEN "lock_one_of_two" ELSE "lock")
               ELSE IF BNrd(b) # {} /\ ~(NrdEnabled /\ Height(b) >= NrdFrom) THEN (IF NrdEnabled THEN "nrd_header_version" ELSE "nrd_disabled")
               ELSE IF BIns(b) \cap BOuts(b) # {} THEN "cut_through" ELSE "unbalanced"
@@ -612,7 +614,7 @@ TxQueryRes2(nd, t, t2) ==
               /\ \A x \in T : (IsNrd(x) /\ NrdEnabled) => NrdOKt(nd.nrd[NrdKey(x)], x, h)
       mat == /\ found
              /\ \A c \in ins : \A i \in ImplLeafOf(nd.u, nd.opos, c) : nd.u.outs[i].cb => nd.u.outs[i].h + Maturity <= h
-      lock == MaxLock(T) <= h
+      lock == MaxLock2(t, t2) <= h
       spent == IF found THEN {[c |-> q[1], h |-> nd.u.outs[q[2]].h] :
                                  q \in {r \in ins \X (1..Len(nd.u.outs)) : r[2] \in ImplLeafOf(nd.u, nd.opos, r[1])}}
                ELSE {}
